@@ -15,6 +15,7 @@ from .common import import_pams, sub_seed
 
 import_pams()
 from pams.agents.base import Agent  # noqa: E402
+from pams.events.base import EventABC  # noqa: E402
 from pams.market import Market  # noqa: E402
 from pams.runners.sequential import SequentialRunner  # noqa: E402
 from pams.session import Session  # noqa: E402
@@ -99,6 +100,13 @@ class _A(Agent):
         return []
 
 
+class _E(EventABC):
+    """a user-written event class (registered with class_register like the agent class)"""
+
+    def hook_registration(self):
+        return []
+
+
 def _decl_settings(d, key):
     if d[0] == "count":
         return {key: d[1]}
@@ -123,6 +131,9 @@ def setup_cases(tier, seed):
         use_extends = rng.random() < 0.3
         cfg = {"simulation": {"markets": [], "agents": [], "sessions": [
             {"sessionName": 0, "iterationSteps": 1, "withOrderPlacement": True, "withOrderExecution": True, "withPrint": False}]}}
+        if i % 2 == 0:
+            cfg["UE"] = {"class": "_E"}                       # a user-registered EVENT class resolves like the others
+            cfg["simulation"]["sessions"][0]["events"] = ["UE"]
         if use_extends:
             cfg["BaseM"] = {"class": "Market", "tickSize": 1.0, "marketPrice": 100.0, "from": 90, "to": 95}
             cfg["BaseA"] = {"class": "_A", "cashAmount": 100, "assetVolume": 1}
@@ -147,6 +158,18 @@ def setup_cases(tier, seed):
                 s["prefix"] = "pm%d_" % g
             cfg[nm] = s
             cfg["simulation"]["markets"].append(nm)
+        if i % 4 == 1 and not use_extends:
+            # an index market group that is NOT the last market group: the markets declared after it still get fresh ids
+            for g in range(len(mdecls)):
+                cfg["MG%d" % g]["outstandingShares"] = 10
+            comp = "MG0" if mdecls[0][0] == "single" else None
+            if comp is not None and not (use_prefix and "prefix" in cfg["MG0"]):
+                n0 = len(mdecls)
+                cfg["MG%d" % n0] = {"class": "IndexMarket", "tickSize": 1.0, "marketPrice": 100.0, "markets": ["MG0"]}
+                cfg["MG%d" % (n0 + 1)] = {"class": "Market", "tickSize": 1.0, "marketPrice": 100.0}
+                cfg["simulation"]["markets"] += ["MG%d" % n0, "MG%d" % (n0 + 1)]
+                mdecls = mdecls + [["single"], ["single"]]
+                eff = eff + [["single"], ["single"]]
         for g, d in enumerate(adecls):
             nm = "AG%d" % g
             lst = sorted(rng.sample(range(len(mdecls)), rng.randint(1, len(mdecls))))
@@ -167,6 +190,7 @@ def setup_cases(tier, seed):
                 warnings.simplefilter("ignore")
                 r = SequentialRunner(settings=cfg, prng=random.Random(i))
                 r.class_register(_A)
+                r.class_register(_E)
                 st, msg = _call_with_timeout(r._setup, limit=3_000_000)
                 if st == "hang":
                     raise TimeoutError("setup does not terminate")
@@ -193,6 +217,7 @@ def setup_cases(tier, seed):
                 warnings.simplefilter("ignore")
                 r2 = SequentialRunner(settings=cfg, prng=random.Random(i))
                 r2.class_register(_A)
+                r2.class_register(_E)
                 st, msg = _call_with_timeout(r2._setup, limit=3_000_000)
                 if st == "hang":
                     raise TimeoutError("setup does not terminate")
@@ -354,6 +379,37 @@ def legacy_cases():
     return out
 
 
+class _Fixed(random.Random):
+    def __init__(self, x):
+        super().__init__(0)
+        self.x = x
+
+    def random(self):
+        return self.x
+
+
+def win_cases():
+    """integer parameters drawn from a range ([a, b] = uniform over [a, b)) by a built-in agent stay inside the range, also
+    when the draw is next to its upper end"""
+    from pams.agents.fcn_agent import FCNAgent
+    out = []
+    for x in (0.0, 0.25, 0.5, 0.99, 1.0 - 2.0 ** -20):
+        for (a, b), (ra, rb) in (((10, 60), (5, 25)), ((1, 2), (3, 4)), ((100, 101), (7, 9))):
+            case = {"c": "win", "a": a, "b": b, "ra": ra, "rb": rb, "tw": -1, "tr": -1, "out": "ok"}
+            try:
+                with warnings.catch_warnings():
+                    warnings.simplefilter("ignore")
+                    ag = FCNAgent(agent_id=0, prng=_Fixed(x), simulator=Simulator(prng=random.Random(0)), name="w")
+                    ag.setup(settings={"cashAmount": 100, "assetVolume": 1, "fundamentalWeight": 1.0, "chartWeight": 0.5, "noiseWeight": 1.0,
+                                       "noiseScale": 0.01, "timeWindowSize": [a, b], "meanReversionTime": {"uniform": [ra, rb]},
+                                       "orderMargin": 0.01}, accessible_markets_ids=[])
+                case["tw"], case["tr"] = int(ag.time_window_size), int(ag.mean_reversion_time)
+            except Exception as ex:  # noqa: BLE001
+                case["out"] = type(ex).__name__
+            out.append(case)
+    return out
+
+
 def all_cases(tier, seed):
-    return {"ext": extends_cases(tier, seed), "setup": setup_cases(tier, seed), "jr": jr_cases(tier, seed),
+    return {"ext": extends_cases(tier, seed), "setup": setup_cases(tier, seed), "jr": jr_cases(tier, seed), "win": win_cases(),
             "cls": cls_cases(), "legacy": legacy_cases()}
